@@ -98,3 +98,53 @@ Definition observed_outs (c : casePIPE) : list json :=
   match c with
   | CPipe _ _ _ _ outs => map (fun o => json_canon (to_json (strip_node o))) outs
   end.
+
+(* debugging aid: the locations (as key paths) where two canonical documents differ *)
+Fixpoint jdiff (fuel : nat) (pre : string) (a b : json) : list string :=
+  match fuel with
+  | O => [pre ++ " <fuel>"]
+  | S f =>
+      match a, b with
+      | JAtom t q v, JAtom t' q' v' =>
+          if tag_eqb t t' && Bool.eqb q q' && String.eqb v v' then []
+          else [pre ++ " : model=" ++ v ++ (if q then "(q)" else "") ++ " impl=" ++ v' ++ (if q' then "(q)" else "") ++
+                (if tag_eqb t t' then "" else " TAG")]
+      | JObj kvs, JObj kvs' =>
+          List.app ((fix go (l : list (string * json)) : list string :=
+              match l with
+              | [] => []
+              | (k, x) :: t =>
+                  match find (fun kv => String.eqb (fst kv) k) kvs' with
+                  | Some (_, x') => List.app (jdiff f (pre ++ "/" ++ k) x x') (go t)
+                  | None => (pre ++ "/" ++ k ++ " only-in-model") :: go t
+                  end
+              end) kvs)
+           (flat_map (fun kv => match find (fun kv' => String.eqb (fst kv') (fst kv)) kvs with
+                               | Some _ => []
+                               | None => [pre ++ "/" ++ fst kv ++ " only-in-impl"]
+                               end) kvs')
+      | JArr es, JArr es' =>
+          (fix go (l l' : list json) (i : nat) : list string :=
+             match l, l' with
+             | [], [] => []
+             | x :: t, x' :: t' => List.app (jdiff f (pre ++ "/#") x x') (go t t' (S i))
+             | _, _ => [pre ++ " seq-length"]
+             end) es es' 0
+      | _, _ => [pre ++ " kind-differs"]
+      end
+  end.
+
+Definition case_diff (c : casePIPE) : string * list (list string) :=
+  match c with
+  | CPipe ns o t cls outs =>
+      match run_pipe ns o t with
+      | Ok ms =>
+          ((if oclass_eqbP cls COk then "ok/ok" else "model-ok/impl-fails") ++
+           (if Nat.eqb (List.length ms) (List.length outs) then "" else " LENGTH"),
+           map (fun mo => jdiff 50 "" (json_canon (to_json (fst mo))) (json_canon (to_json (strip_node (snd mo)))))
+               (combine ms outs))
+      | Err => ((if oclass_eqbP cls CErr then "err/err" else "model-err/impl-other"), [])
+      | Panic => ("model-panic", [])
+      | Diverge => ("model-diverge", [])
+      end
+  end.
